@@ -755,31 +755,14 @@ func zoneHistoryRun(c *Ctx, prop string) {
 	K -= gen.Intn(K/8 + 1)
 	seed := gen.U64()
 	e := harness.EntryByName([]string{"Decode", "DecodeTiff", "exif2.Parse"}[gen.Intn(3)])
-	rec := &gengen.Record{ModifyDate: &gengen.DateTime{Y: 2020, Mo: 1, D: 2, H: 3, Mi: 4, S: 5}}
-	rec.DateOrig, rec.DateDig = rec.ModifyDate, rec.ModifyDate
-	marks := []string{"+AA:AA", "+BB:BB", "+CC:CC"}
-	rec.Offset, rec.OffsetOrig, rec.OffsetDig = &marks[0], &marks[1], &marks[2]
-	tmpl := gengen.TIFFFile(gen, gengen.BuildTIFF(gen, rec, gengen.LayoutOpts{Canonical: true}).Encode(gen.Bool()).Bytes, false)
-	var at [3]int
-	for j, m := range marks {
-		at[j] = strings.Index(string(tmpl), m)
-		if at[j] < 0 {
-			panic("verif: zone text marker not found in the generated file")
-		}
-	}
+	tmpl, at := zoneTemplate(gen)
 	env := drawEnv(c, e, prop)
 	c.Descf("history of %d calls of %s, zone text style %d, text seed %#x, file length %d, reader=%s", K, e.Name, style, seed, len(tmpl), harness.RKNames[env.RK])
 	if c.PlanOnly {
 		c.PlanEntry = e.Name
 		return
 	}
-	file := func(i int) []byte {
-		d := append([]byte(nil), tmpl...)
-		for j := 0; j < 3; j++ {
-			zoneText(d[at[j]:at[j]+6], style, seed, uint64(i)*3+uint64(j))
-		}
-		return d
-	}
+	file := func(i int) []byte { return zoneFile(tmpl, at, style, seed, i) }
 	defer func() { harness.SkipCanon = false }()
 	call := func(i int) (*harness.Result, *world.SimReader, int) {
 		d := file(i)
@@ -848,4 +831,30 @@ func zoneHistoryRun(c *Ctx, prop string) {
 		harness.MeasureAlloc = true
 	}
 	c.Descf("largest allocation charged to one call by the screen: %d bytes; %d candidate calls", screenMax, len(cands))
+}
+
+// zoneTemplate builds a tiny TIFF with the three timestamps and three zone-offset texts, and
+// says where the texts are.
+func zoneTemplate(gen *core.Lane) (tmpl []byte, at [3]int) {
+	rec := &gengen.Record{ModifyDate: &gengen.DateTime{Y: 2020, Mo: 1, D: 2, H: 3, Mi: 4, S: 5}}
+	rec.DateOrig, rec.DateDig = rec.ModifyDate, rec.ModifyDate
+	marks := []string{"+AA:AA", "+BB:BB", "+CC:CC"}
+	rec.Offset, rec.OffsetOrig, rec.OffsetDig = &marks[0], &marks[1], &marks[2]
+	tmpl = gengen.TIFFFile(gen, gengen.BuildTIFF(gen, rec, gengen.LayoutOpts{Canonical: true}).Encode(gen.Bool()).Bytes, false)
+	for j, m := range marks {
+		at[j] = strings.Index(string(tmpl), m)
+		if at[j] < 0 {
+			panic("verif: zone text marker not found in the generated file")
+		}
+	}
+	return
+}
+
+// zoneFile is the i-th file of a history: the template with its three zone texts replaced.
+func zoneFile(tmpl []byte, at [3]int, style int, seed uint64, i int) []byte {
+	d := append([]byte(nil), tmpl...)
+	for j := 0; j < 3; j++ {
+		zoneText(d[at[j]:at[j]+6], style, seed, uint64(i)*3+uint64(j))
+	}
+	return d
 }
